@@ -68,6 +68,13 @@ def oracle(chk, scn, dry, real, stats):
     if dry["report"] != real["report"]:
         chk.oracle_fail("dry run reports %r, the real run %r" % (dry["report"][:4], real["report"][:4]), case, finding=finding)
         return
+    # the report accounts for everything the real run did: no successful filesystem-changing call other than the reported
+    # renames/moves (and, in path mode, the directories created on the way)
+    allowed = {"rename", "move", "mkdir"} if scn["mode"] == "path" else {"rename"}
+    extra = [c for c in real["raw_calls"] if c[3] == "ok" and c[0] not in allowed]
+    if extra:
+        chk.oracle_fail("the real run did something the dry run's report does not account for: %r" % ([(c[0], c[1]) for c in extra][:3],), case, finding=finding)
+        return
     # the report is truthful: the i-th report line is the i-th successful rename/move of the real run
     okc = [c for c in real["raw_calls"] if c[0] in ("rename", "move") and c[3] == "ok"]
     if pipe.modelable(real) and [(c[1][0], c[1][1].replace("ROOT", "")) for c in okc] != [(a, b) for a, b, _ in real["report"]]:
